@@ -86,6 +86,25 @@ theorem verifiedKeys_spec (rs : List ServerResult) :
   simp only [List.not_mem_nil, false_or] at this
   exact this
 
+theorem postRepairKeys_spec (pre : List ServerResult) (ur : List (Nat × Nat)) :
+    (postRepairKeys pre ur).Nodup ∧
+    ∀ sh, sh ∈ postRepairKeys pre ur ↔ (∃ r ∈ pre, sh ∈ r.verified) ∨ ∃ srv, (sh, srv) ∈ ur := by
+  obtain ⟨h1, h2⟩ := verifiedKeys_spec pre
+  obtain ⟨a1, a2⟩ := addKeys_spec (ur.map (·.1)) (verifiedKeys pre) h1
+  refine ⟨a1, fun sh => ?_⟩
+  have := a2 sh
+  unfold postRepairKeys
+  show sh ∈ (ur.map (·.1)).foldl addKey (verifiedKeys pre) ↔ _
+  rw [this, h2 sh]
+  constructor
+  · rintro (h | h)
+    · exact Or.inl h
+    · obtain ⟨e, he, rfl⟩ := List.mem_map.mp h
+      exact Or.inr ⟨e.2, he⟩
+  · rintro (h | ⟨srv, h⟩)
+    · exact Or.inl h
+    · exact Or.inr (List.mem_map.mpr ⟨(sh, srv), h, rfl⟩)
+
 /-! ## storage spec -/
 
 theorem closeWriter_lookup (st : Store) (sh : Nat) (data : Bytes) (x : Nat) (b : Bytes)
